@@ -632,7 +632,7 @@ access(all) fun main(): [String] {
  return [Col.pick(%d).rawValue.toString(), (Col.Color(rawValue: %d)?.rawValue ?? 9).toString()]
 }`, i, i)})
 	}
-	runAll("cold-vm-compile-enum", enums, 6, true, nil)
+	runAll("cold-vm-compile-enum", enums, 16, true, nil)
 }
 
 // ---------------------------------------------------------------- main
